@@ -4,13 +4,12 @@
 //! additionally stub `alloc::alloc::alloc` with an allocator that may return null.
 use crate::common::*;
 
-/// every alloc-feature operation, selected symbolically; everything is dropped before the harness ends
+/// every alloc-feature operation (operation number R, one harness each - a symbolic selector over all of them made the single harness
+/// too heavy for counterexample-trace generation); everything is dropped before the harness ends
 pub fn ops<T: Sym, N: ArrayLength, const R: usize>() {
     let n = N::USIZE;
-    let op = any_upto(10);
-    kani_cover!(op == 9);
-    kani_cover!(op == 0);
-    kani_cover!(op == 10);
+    let op = R;
+    kani_cover!(true);
     match op {
         10 => {
             // a source whose size_hint lower bound is 0 but which yields exactly N items (filter)
@@ -221,6 +220,23 @@ macro_rules! c16_align_lattice {
         }
     };
 }
+macro_rules! c16_ops_lattice {
+    ($($name:ident: $T:ty, $N:ty, $u:literal;)*) => {
+        pub mod ops {
+            $(
+                pub mod $name {
+                    use super::super::super::ops;
+                    use crate::common::*;
+                    lattice! { ops;
+                        op0: <$T, $N, 0> unwind $u; op1: <$T, $N, 1> unwind $u; op2: <$T, $N, 2> unwind $u; op3: <$T, $N, 3> unwind $u;
+                        op4: <$T, $N, 4> unwind $u; op5: <$T, $N, 5> unwind $u; op6: <$T, $N, 6> unwind $u; op7: <$T, $N, 7> unwind $u;
+                        op8: <$T, $N, 8> unwind $u; op9: <$T, $N, 9> unwind $u; op10: <$T, $N, 10> unwind $u;
+                    }
+                }
+            )*
+        }
+    };
+}
 macro_rules! c16_lattice {
     ($body:ident; $($name:ident: $T:ty, $N:ty, $u:literal;)*) => {
         pub mod $body {
@@ -248,13 +264,13 @@ macro_rules! c16_fail_lattice {
     };
 }
 pub mod q {
-    c16_lattice! { ops; u64_n0: u64, U0, 5; u64_n1: u64, U1, 6; u64_n3: u64, U3, 8; unit_n0: (), U0, 5; unit_n3: (), U3, 8; }
+    c16_ops_lattice! { u64_n0: u64, U0, 5; u64_n1: u64, U1, 6; u64_n3: u64, U3, 8; unit_n0: (), U0, 5; unit_n3: (), U3, 8; }
     c16_lattice! { ops_payload; n0: (), U0, 5; n1: (), U1, 6; n3: (), U3, 8; }
     c16_fail_lattice! { u64_n0: u64, U0, 5; u64_n1: u64, U1, 6; u64_n3: u64, U3, 8; unit_n3: (), U3, 8; }
     c16_align_lattice! { n1: U1, 8; n3: U3, 10; }
 }
 pub mod t {
-    c16_lattice! { ops; u64_n2: u64, U2, 7; u64_n5: u64, U5, 10; u8_n8: u8, U8, 13; unit_n1: (), U1, 6; pad_n3: (u8, u16), U3, 8; a16_n2: A16, U2, 7; }
+    c16_ops_lattice! { u64_n2: u64, U2, 7; u64_n5: u64, U5, 10; u8_n8: u8, U8, 13; unit_n1: (), U1, 6; pad_n3: (u8, u16), U3, 8; a16_n2: A16, U2, 7; }
     c16_lattice! { ops_payload; n2: (), U2, 7; n4: (), U4, 9; n5: (), U5, 10; }
     c16_fail_lattice! { u64_n2: u64, U2, 7; u64_n5: u64, U5, 10; u8_n8: u8, U8, 13; unit_n0: (), U0, 5; }
     c16_align_lattice! { n2: U2, 9; n4: U4, 11; }
